@@ -59,6 +59,8 @@ pub struct Profile {
     pub storage_exercise_pm: u64,
     /// share of the 'bogus input' events that are (pre-)vote requests from a node outside the configuration
     pub stranger_vote_pm: u64,
+    /// after a membership proposal: what-if Changer calls on some node's tracker (C12)
+    pub conf_exercise_pm: u64,
     pub slow_msg_pm: u64,
     pub fifo_pm: u64,
     /// client op weights
@@ -130,6 +132,7 @@ impl Profile {
             conf_heavy_pm: 300,
             storage_exercise_pm: 0,
             stranger_vote_pm: 300,
+            conf_exercise_pm: 0,
             slow_msg_pm: 60,
             fifo_pm: 300,
             w_propose: 60,
@@ -435,6 +438,7 @@ impl<'a> Driver<'a> {
             | Action::ReportSnapshot { n, .. }
             | Action::Compact { n, .. }
             | Action::StorageExercise { n, .. }
+            | Action::ConfExercise { n, .. }
             | Action::SetKnob { n, .. }
             | Action::EntriesFetched { n }
             | Action::Restart { n }
@@ -792,6 +796,12 @@ impl<'a> Driver<'a> {
                         a
                     };
                     self.act(a)?;
+                    if self.rng.pm(self.p.conf_exercise_pm) {
+                        if let Some(x) = self.random_running() {
+                            let seed = self.rng.next_u64();
+                            self.act(Action::ConfExercise { n: x, seed })?;
+                        }
+                    }
                     if self.rng.pm(if self.conf_heavy { 500 } else { self.p.conf_burst_pm }) {
                         let d = self.rng.range(2, 60) * MS;
                         self.push(d, Ev::ConfFollowUp(n));
